@@ -1,38 +1,11 @@
-(* C05: decidable renditions of the specification, evaluated on implementation outputs by the correspondence
-   check (runtime monitor; the theorems are in proofs/C05_*.v). *)
+(* C05: the regenerated models against the implementation (depends on coq/gen). *)
 From Coq Require Import QArith Qminmax List String Bool.
 Require Import WV.base.Py WV.gen.GenBlock.
+Require Export WV.model.C05SpecPure.
 Import ListNotations.
 Open Scope string_scope.
 Open Scope list_scope.
 Open Scope Q_scope.
-
-Definition val_eqb (a b : val) : bool :=
-  match a, b with
-  | VNum x, VNum y => Qeq_bool x y
-  | VStr x, VStr y => String.eqb x y
-  | VNone, VNone => true
-  | VBool x, VBool y => Bool.eqb x y
-  | _, _ => false
-  end.
-Definition is_auto_b (v : val) : bool := match v with VStr _ => true | _ => false end.
-Definition numof_b (v : val) : Q := match v with VNum q => q | _ => 0 end.
-Definition impl (a b : bool) := negb a || b.
-
-(* mode: 0 tuple, 1 ltr box, 2 rtl box, 3 ltr column, 4 rtl column *)
-Definition mk_env (ml mr w : val) (pl pr bl br px cbw : Q) (mode : nat) : env :=
-  [("box", VObj [("margin_left", ml); ("margin_right", mr); ("width", w);
-        ("padding_left", VNum pl); ("padding_right", VNum pr);
-        ("border_left_width", VNum bl); ("border_right_width", VNum br);
-        ("position_x", VNum px); ("is_column", VBool (match mode with 3%nat | 4%nat => true | _ => false end))]);
-   ("containing_block",
-     match mode with
-     | O => VList [VNum cbw; VNum 0]
-     | _ => VObj [("width", VNum cbw);
-                  ("style", VObj [("direction", VStr (match mode with 2%nat | 4%nat => "rtl" | _ => "ltr" end))])]
-     end)].
-
-Definition fld (o : val) (k : string) : val := match o with VObj f => lookup k f | _ => VErr "noobj" end.
 
 (* model output: the four mutated fields, or VErr when the run raises *)
 Definition blw_model (ml mr w : val) (pl pr bl br px cbw : Q) (mode : nat) : list val :=
@@ -40,31 +13,6 @@ Definition blw_model (ml mr w : val) (pl pr bl br px cbw : Q) (mode : nat) : lis
       (fun rho _ => let b := lookup "box" rho in
                     [fld b "margin_left"; fld b "margin_right"; fld b "width"; fld b "position_x"])
       (fun m => [VErr m]).
-
-Definition vals_eqb (a b : list val) : bool :=
-  Nat.eqb (List.length a) (List.length b) && forallb (fun p => val_eqb (fst p) (snd p)) (combine a b).
-
-(* boolean rendition of width_post (proofs/C05_width.v) applied to an output [a; c; d; x] *)
-Definition width_spec_b (ml mr w : val) (pl pr bl br px cbw : Q) (mode : nat) (out : list val) : bool :=
-  match out with
-  | [VNum a; VNum c; VNum d; VNum x] =>
-      let tot := numof_b ml + numof_b mr + pl + pr + bl + br + numof_b w in
-      let fits := Qle_bool tot cbw in
-      let sum := a + bl + pl + d + pr + br + c in
-      let rtl_shift := match mode with 2%nat => true | _ => false end in
-      impl (negb (is_auto_b w)) (Qeq_bool d (numof_b w)) &&
-      impl (negb (is_auto_b ml)) (Qeq_bool a (numof_b ml)) &&
-      impl (negb (is_auto_b mr)) (Qeq_bool c (numof_b mr)) &&
-      impl (is_auto_b w) (Qeq_bool sum cbw && impl (is_auto_b ml) (Qeq_bool a 0) && impl (is_auto_b mr) (Qeq_bool c 0)) &&
-      impl (negb (is_auto_b w) && (is_auto_b ml || is_auto_b mr) && fits)
-           (Qeq_bool sum cbw && impl (is_auto_b ml && is_auto_b mr) (Qeq_bool a c)) &&
-      impl (negb (is_auto_b w) && negb fits) (impl (is_auto_b ml) (Qeq_bool a 0) && impl (is_auto_b mr) (Qeq_bool c 0)) &&
-      (if rtl_shift && negb (is_auto_b w)
-       then impl (negb (is_auto_b ml || is_auto_b mr) || negb fits) (Qeq_bool (x + sum) (px + cbw)) &&
-            impl ((is_auto_b ml || is_auto_b mr) && fits) (Qeq_bool x px)
-       else Qeq_bool x px)
-  | _ => false
-  end.
 
 (* bit 0: model <> implementation ; bit 1: implementation output violates the specification *)
 Definition blw_judge (c : (val * val * val) * (Q * Q * Q * Q * Q * Q) * nat * list val) : nat :=
@@ -76,8 +24,6 @@ Definition blw_judge (c : (val * val * val) * (Q * Q * Q * Q * Q * Q) * nat * li
 Definition collapse_model (ms : list Q) : val :=
   run real_ops collapse_margin_body [("adjoining_margins", VList (map VNum ms))]
       (fun _ r => match r with Some v => v | None => VNone end) (fun m => VErr m).
-Definition collapse_spec_q (ms : list Q) : Q :=
-  fold_left Qmax (filter (fun m => Qle_bool 0 m) ms) 0 + fold_left Qmin (filter (fun m => Qle_bool m 0) ms) 0.
 Definition collapse_judge (c : list Q * val) : nat :=
   let '(ms, out) := c in
   ((if val_eqb (collapse_model ms) out then 0 else 1) +
